@@ -4,4 +4,4 @@ Require Import Pk.RegexProg.
 Require Extraction.
 Require Import ExtrOcamlBasic.
 Extraction "c18_model.ml"
-  mkInst mkProg accepted_length accepted_length_cached accepted_length_cached_v0 constant_suffix wf sat assertion_free accepts_b.
+  mkInst mkProg accepted_length accepted_length_cached accepted_length_cached_v0 constant_suffix constant_suffix_b wf sat assertion_free accepts_b.
